@@ -564,6 +564,10 @@ def check_masks(ctx, F):
                 got = (variant_of(ops[0]), variant_of(ops[1]))
         if got == (rk, st):
             ctx.ok(rule, f"bit {v.bit_length() - 1} -> {rk}/{st}", sample=(rk == "Ace" and st == "Spade"))
+        elif got is None or None in got:
+            ctx.violation(rule, f"{dec.path}|{rk}-{st}", f"fail closed: the decoder's result for the bit of ({rk}, {st}) ({v:#x}) could not be folded from "
+                          f"its mask tests (a decoder of another shape — arithmetic on the bit position, a search — is not read by this rule)",
+                          fn=dec.path, file=dec.file, line=dec.line, construct="unrecognised decoder shape")
         else:
             ctx.violation(rule, f"{dec.path}|{rk}-{st}", f"Card::from(&{v:#x}) gives {got}; that bit encodes ({rk}, {st})",
                           fn=dec.path, file=dec.file, line=dec.line)
